@@ -94,6 +94,31 @@ Definition C10_prefix : Prop :=
   same_eco (step e s) (step e (strip s)) /\
   (forall s' o, step e s = (Ok s', o) -> trs s' = trs s).
 
+(* events registered while the simulation is running: whatever the interleaving of steps and
+   registrations, the events already registered keep their place and never go backwards *)
+Definition C10_session : Prop :=
+  forall (e : env) (ops : list op) (s s' : sim),
+  session e ops s = Ok s' ->
+  length (trs s) <= length (trs s') /\
+  Forall2 (fun a b => rank (st a) <= rank (st b)) (trs s) (firstn (length (trs s)) (trs s')).
+
+(* registering an event before it occurs, at any moment, is the same as having registered it
+   from the start: a step commutes with the registration of events that are still to come.
+   Freshly created trackers are pending and hold no rebuilding id (obligation reg.fresh); without
+   [rid = None] the statement is false (a pending tracker holding the id of an active event would
+   overwrite its demand block: refuted in Proofs/C10SessionProofs.v). *)
+Definition C10_late_registration : Prop :=
+  forall (e : env) (s : sim) (new : list tracker),
+  all_later (now s) new -> Forall (fun tr => rid tr = None) new ->
+  (forall s' o, step e s = (Ok s', o) -> step e (register s new) = (Ok (register s' new), o)) /\
+  (forall s' o, step e s = (Crash s', o) -> step e (register s new) = (Crash (register s' new), o)) /\
+  (forall x s' o, step e s = (Error x s', o) -> step e (register s new) = (Error x (register s' new), o)).
+(* the same statement without the hypothesis on the ids (kept to document why it is needed) *)
+Definition C10_late_registration_any_id : Prop :=
+  forall (e : env) (s : sim) (new : list tracker),
+  all_later (now s) new ->
+  (forall s' o, step e s = (Ok s', o) -> step e (register s new) = (Ok (register s' new), o)).
+
 (* ================================================================== *)
 (* C08 - reconstruction demand                                          *)
 Definition quantum (prec : Z) : Qc := pow10 (- prec).
